@@ -52,7 +52,13 @@ def handleCall (op : String) (inp : Json) (impl : Option Json) : R (Option Json)
     if ploidy == 0 then throw "ploidy 0 is outside the model"
     if m == .threshold && (purityActive purity).isSome then
       throw "threshold after purity rescaling is outside the model (re-reads the float log2)"
-    let outs := callTable cfg m thr hasBaf rows
+    -- `variants`: the BAF column came from the `variants` argument (rescaled for purity on the purity path)
+    let fromVariants := match optFld inp "variants" with
+      | some (Json.bool b) => b
+      | _ => false
+    let rowsIn := rows
+    let rows := if fromVariants then rows.map (bafForCall cfg true) else rows
+    let outs := if fromVariants then callTableV cfg m thr true rowsIn else callTable cfg m thr hasBaf rows
     let first := (rows.head?.map (·.chrom)).getD ""
     let outJ := arrJ (outs.map fun o =>
       arrJ [optIntJ o.cn, optRatJ o.ratio, optIntJ o.cn1, optIntJ o.cn2])
